@@ -128,7 +128,15 @@ Rhs(sym) ==
                        <<"vg(", I, ",", I, ",", L, ")">>, <<"vh(", I, ",", I, ",", I, ",", D, ")">>, <<"vg(c, sh,", L, ")">>,
                        <<"vh(u, p, c, fl)">>,
                        <<"vz(", I, ")">> >>        \* variadic callee, no variable argument: the call still carries `...`
-                 \o (IF NoretArm THEN << <<"(", C, "? (die(),", I, ") :", I, ")">>, <<"(", C, "?", I, ": (die(),", I, "))">> >> ELSE <<>>))
+                 (* calls of _Noreturn functions as (the tail of) an operand: the block is closed by hlt in the   *)
+                 (* middle of an expression that still has a phi / a conversion to emit                          *)
+                 \o (IF NoretArm THEN << <<"(", C, "? (die(),", I, ") :", I, ")">>, <<"(", C, "?", I, ": (die(),", I, "))">>,
+                                         <<"(", C, "|| (die(),", I, "))">>, <<"(", C, "&& (die(),", I, "))">>,
+                                         <<"(", C, "|| ndie())">>, <<"(", C, "&& ndie())">>,
+                                         <<"(", C, "? ndie() :", I, ")">>, <<"(", C, "?", I, ": ndie())">>,
+                                         <<"(", E, ", (die(),", I, "))">>, <<"(ndie(),", I, ")">>,
+                                         <<"((", C, "|| ndie()) &&", C, ")">>, <<"(", C, "|| (", C, "&& ndie()))">> >>
+                      ELSE <<>>))
        [] sym.nt = "L" ->
             Each(LongLeaf, LAMBDA x : <<x>>)
             \o (IF Leaf THEN <<>> ELSE
@@ -161,6 +169,15 @@ Rhs(sym) ==
                     <<"for (;;) {", SL, "if (", C, ") break; }">>,
                     <<"{", B, "}">>, <<"{ int t =", I, ";", B, "i += t; }">>,
                     <<"{ int w[(i & 3) + 1]; w[0] =", I, "; j += w[0] + (int)sizeof w; }">>,
+                    (* a variably modified typedef of an outer block, first used on one path and used again on a *)
+                    (* path that bypasses the first use (its size must be evaluated where the typedef is reached, *)
+                    (* C11 6.8p3).  No statement nonterminal inside: nothing may jump into the typedef's scope.    *)
+                    <<"{ typedef int T[(i & 3) + 1]; if (", C, ") { T x; x[0] =", I, "; j += x[0]; } else { T y; y[0] =", I, "; j += y[0]; } }">>,
+                    <<"{ typedef int T[(i & 3) + 1][(j & 1) + 1]; while (", C, ") { T x; x[0][0] =", I, "; if (x[0][0]) break; } { T y; y[0][0] =", I, "; j += (int)sizeof y; } }">>,
+                    <<"{ typedef int (*P)[(i & 3) + 1]; switch (", I, ") { case 1: { P q = (P)pp; j += (int)sizeof *q; } break; default: { P r = (P)pp; j += (int)sizeof *r + (*r)[0]; } } }">>,
+                    <<"{ typedef int (*P)[(i & 1) + 1][(j & 3) + 1]; for (int k = 0; k <", I, "; k++) { P q = (P)pp; j += (int)sizeof **q; } { P r = (P)pp; j += (int)sizeof *r; } }">>,
+                    <<"{ typedef long T[(u & 7) + 1]; if (", C, ") j += (int)sizeof(T); else { T y; y[0] =", L, "; } j += (int)sizeof(T); }">>,
+                    <<"{ typedef char T[(i & 3) + 1]; do { if (", C, ") break; { T x; x[0] = (char)", I, "; } } while (", C, "); { T y; y[0] = 0; j += y[0]; } }">>,
                     <<"return", I, ";">> >>)
        [] OTHER -> <<>>
 
